@@ -173,7 +173,10 @@ def b_bytes(E, v=b""):
     if isinstance(v, int):
         return bytes(v)
     if isinstance(v, SInt):
-        # bytes(n): n zero bytes
+        # bytes(n): n zero bytes.  A count that the path bounds by 8 is split into its possible values.
+        if E.implied(mk_bool(z3.And(v.t >= 0, v.t <= 8))):
+            k = E.choose([mk_bool(v.t == c) for c in range(9)])
+            return bytes(k)
         r = E.fresh_seq("zeros", "bytes", "int")
         E.assume(SBool(z3.Length(r.t) == v.t))
         i = z3.Int(E.fresh_name("zi"))
